@@ -22,7 +22,6 @@ bind there (k-th `?` / `%s` <- parameters[k]; `:N` / `$N` <- parameters[N-1]; `:
 """
 import hashlib
 import itertools
-import json
 import re
 import warnings
 
